@@ -44,6 +44,14 @@ def check(run, focus=FOCUS, modules=MODULES, suffix=SUFFIX):
     except Exception as e:       # noqa
         run.violation("broken-correspondence", {"kind": "translator", "arch": "registers"}, f"the register obligations could not be generated: {e}", found_input=False)
         return
+    # an obligation may be left out only for the structural reason known on the pinned tree (an operand spread over two run-time words: tbz/tbnz);
+    # one that can no longer be translated or instantiated is a theorem that is no longer stated
+    unstated = []
+    for (arch_, g) in (("aarch64", gen), ("riscv", gen_rv), ("registers", gen_reg)):
+        for ob in g.get("obligations", []):
+            why = ob.get("skip")
+            if why and not why.startswith("not a single run-time word"):
+                unstated.append((arch_, ob.get("mnemonic") or ob.get("line") or ob.get("lean_cmds") or str(ob.get("n")), why))
     reg_suffix = ("_dyn_eq_static_checked", "_dyn_eq_static_release") if focus == "C03" else ("_injective",)
     extra_reg = ["DynasmVerif.RegDyn." + t for t in gen_reg["theorems"] if t.endswith(reg_suffix)]
     extra = extra_reg + ["DynasmVerif.A64Dyn." + t for t in gen["theorems"] if t.endswith(suffix)] + ["DynasmVerif.RvDyn." + t for t in gen_rv["theorems"] if t.endswith(suffix)]
@@ -65,6 +73,11 @@ def check(run, focus=FOCUS, modules=MODULES, suffix=SUFFIX):
     # operands no generated theorem reaches (Zcmp lists and stack adjustments, Zfa, CSR numbers): independent reference; under C03 for the run-time spellings too
     import rvspecial
     stats["riscv_special_operands"] = rvspecial.sweep(run, thorough)
+    if unstated:
+        found = (len(run.violations) + len(run.known_hit)) > found_before
+        run.violation("broken-obligation", {"kind": "obligation-not-stated", "first": str(unstated[0][1])[:80]},
+                      "; ".join(f"{a} `{m}`: {w[:120]}" for (a, m, w) in unstated[:4]) + ": the run-time expression of this operand can no longer be translated, so its theorems are not stated",
+                      {"unstated": [list(u) for u in unstated]}, found_input=found)
     run.coverage["evaluations"] = stats["literal"] + stats["runtime"]
     run.coverage["distinct_nontrivial"] = stats["literal_accepted"] + stats["runtime_accepted"]
     run.coverage["rule"] = ("every distinct immediate command group of the aarch64 table (one representative form each) x boundary values of the documented set, values just outside, "
